@@ -171,7 +171,7 @@ def _is_used(func, name):
     import re as _re
     pat = _re.compile(r"%" + _re.escape(name) + r"(?![\w.])")
     for l, i in func.instrs():
-        if i.res == name:
+        if i.res == name or (i.op == "call" and i.callee and i.callee.startswith("llvm.dbg.")):
             continue
         body = i.raw.split(" = ", 1)[-1] if i.res is not None else i.raw
         if pat.search(body):
@@ -496,7 +496,8 @@ def fp_affine(node, uns=False):
             return ({}, Fraction(wrap_int(node.cval(), node.ty) if uns else as_signed(node.cval(), node.ty)), [])
         return None
     if op in ("fpext", "fptrunc", "sitofp", "uitofp", "sext", "zext"):
-        r = fp_affine(node.args[0], uns)
+        # the conversion instruction itself fixes how an integer operand is read
+        r = fp_affine(node.args[0], False if op in ("sitofp", "sext") else True if op in ("uitofp", "zext") else uns)
         if r is None:
             return None
         return (r[0], r[1], r[2] + [node])
